@@ -379,15 +379,8 @@ func (db *Database) processPostingsForTerm(
 	for _, p := range postings {
 		doc := &db.Commands[p.docID]
 
-		// Platform filtering (skip if AllPlatforms is enabled)
-		if !options.AllPlatforms && len(doc.Platform) > 0 {
-			if !isPlatformCompatible(doc.Platform, currentPlatform) && !isCrossPlatformTool(doc.Command) {
-				continue
-			}
-		}
-
-		// Pipeline filtering
-		if options.PipelineOnly && !isPipelineCommand(doc) {
+		// Platform and pipeline filtering
+		if !passesFilters(doc, currentPlatform, options) {
 			continue
 		}
 
@@ -395,6 +388,41 @@ func (db *Database) processPostingsForTerm(
 		s += (idf * boost) * idx.termBM25F(p.docID, p.tf)
 		scores[p.docID] = s
 	}
+}
+
+// passesFilters applies the platform and pipeline filters shared by every search path.
+//
+// A command that declares platforms is kept when one of them is a platform in force
+// (options.Platforms if given, otherwise the host platform), or - unless
+// options.NoCrossPlatform is set - when it is tagged cross-platform or is a known
+// cross-platform tool. options.AllPlatforms disables platform filtering.
+func passesFilters(doc *Command, currentPlatform string, options SearchOptions) bool {
+	if !options.AllPlatforms && len(doc.Platform) > 0 {
+		inForce := options.Platforms
+		if len(inForce) == 0 {
+			inForce = []string{currentPlatform}
+		}
+		declared, crossTag := false, false
+		for _, p := range doc.Platform {
+			if strings.EqualFold(p, "cross-platform") {
+				crossTag = true
+				continue
+			}
+			for _, want := range inForce {
+				if strings.EqualFold(p, want) || checkPlatformVariant(p, strings.ToLower(want)) {
+					declared = true
+				}
+			}
+		}
+		if !declared && (options.NoCrossPlatform || (!crossTag && !isCrossPlatformTool(doc.Command))) {
+			return false
+		}
+	}
+
+	if options.PipelineOnly && !isPipelineCommand(doc) {
+		return false
+	}
+	return true
 }
 
 func (db *Database) enhanceQueryWithNLP(query string, terms []string) (pq *nlp.ProcessedQuery, enhancedTerms []string) {
